@@ -1089,7 +1089,7 @@ def canary(ctx):
     cf, pfile = os.path.join(d, 'cases.json'), os.path.join(d, 'progress')
     from harness import common
     json.dump(common.jsonable(cases), open(cf, 'w'))
-    limit = 120
+    limit = 480    # ~15 s unloaded (import + JIT + 90 small searches); generous so that a loaded machine never trips it
     try:
         p = subprocess.run([sys.executable, '-m', 'harness.props.c14', '--canary', cf, pfile], timeout=limit,
                            stdout=subprocess.PIPE, stderr=subprocess.PIPE, cwd=common.VERIF)
